@@ -267,6 +267,7 @@ func Main(id string) {
 	var states []stateRec
 	var mu sync.Mutex
 	forkStates := 0
+	ReducedMinQuorum = id == "C15"
 	IncludeLate = id == "C01" || (id == "C15" && !r.Quick())
 	cfgs := Configs(r.Quick())
 	if id == "C01" {
